@@ -32,6 +32,8 @@ fn action_for(k: u64, plain: bool) -> Option<Action> {
         (_, 10) => Action::PrintFormatted(f_lit_first),
         (false, 11) => Action::PrintFormatted(f_mixed),
         (false, 12) => Action::FilePrintFormatted("a".into(), f_lit_first),
+        #[allow(deprecated)]
+        (_, 13) => Action::DefaultPrint, // hand-built implicit-print node next to other printers
         _ => return None,
     })
 }
@@ -41,9 +43,9 @@ fn build_expr(r: &mut Rng, printers: usize, plain: bool) -> Expression {
     let mut have_framing = false;
     for j in 0..printers {
         let a = loop {
-            let k = r.below(13);
+            let k = r.below(14);
             if let Some(a) = action_for(k, plain) {
-                if !plain && j + 1 == printers && !have_framing && (k < 3 || k == 9 || k == 10) {
+                if !plain && j + 1 == printers && !have_framing && (k < 3 || k == 9 || k == 10 || k == 13) {
                     continue; // make sure a framed configuration really is framed
                 }
                 if (3..9).contains(&k) || k >= 11 {
@@ -58,7 +60,7 @@ fn build_expr(r: &mut Rng, printers: usize, plain: bool) -> Expression {
             0 => and(t(Test::Name(format!("t{}*", r.below(2)))), act(a)),
             1 => {
                 let other = loop {
-                    if let Some(b) = action_for(r.below(13), plain) {
+                    if let Some(b) = action_for(r.below(14), plain) {
                         if !matches!(b, Action::Quit) {
                             break b;
                         }
